@@ -206,6 +206,8 @@ def gen_sm(rng, cls, valid_only=True):
         text = rng.choice(['plain ascii', 'q' * 254, 'r' * 255, '~`'])
     else:
         text = rng.choice(['café', 'ÿ' * 10, 'x' * 260])
+    if rng.random() < 0.06:
+        text = ''            # an empty text is legal: sm_length 0 and no message_payload
     use_payload = rng.random() < 0.2
     kw = dict(short_message='' if use_payload else text, message_payload=text if use_payload else '',
               source=gen_phone(rng), destination=gen_phone(rng), service_type=rng.choice(['', 'CMT', 'abcde']),
@@ -229,7 +231,15 @@ def gen_sm(rng, cls, valid_only=True):
             kw['sequence_num'] = rng.choice([-1, 2 ** 32 - 1])
         elif r < 0.8:
             kw['validity_period'] = timedelta(weeks=64)
-    return cls(**kw), default
+    try:
+        return cls(**kw), default
+    except ValueError:
+        if text != '':
+            raise
+        # a library that refuses to build a message with an empty text: the generator goes on with a non-empty one (the decode
+        # direction of C03/C04 exhibits the refusal on a conformant PDU)
+        kw['message_payload' if use_payload else 'short_message'] = 'a'
+        return cls(**kw), default
 
 
 def gen_simple(rng):
